@@ -76,6 +76,23 @@ def linkPrev (f : Nat → Req) (hd : Option Nat) (r : Nat) : Nat → Req :=
   | some h => upd f h { f h with prev := some r }
   | none => f
 
+/-- `srv.flush`'s lookup: the newest request in the table under the old tag — unless that is the
+    Tflush itself (a Tflush naming its own tag: whatever it could have flushed ran before it) -/
+def lookupTarget (chain : Nat → List Nat) (f ot : Nat) : Option Nat :=
+  match (chain ot).head? with
+  | some t => if t = f then none else some t
+  | none => none
+
+theorem lookupTarget_some {chain : Nat → List Nat} {f ot t : Nat} (h : lookupTarget chain f ot = some t) :
+    (chain ot).head? = some t ∧ t ≠ f := by
+  unfold lookupTarget at h
+  split at h
+  · rename_i t' ht
+    split at h
+    · cases h
+    · cases h; exact ⟨ht, by assumption⟩
+  · cases h
+
 inductive Ev where
   | recv (tag : Nat) (oldtag : Option Nat)   -- Conn.recv enqueues a request          [recv.enqueued]
   | check (r : Nat)                           -- process(): test reqFlush, set reqWork   [process.check]
@@ -150,7 +167,7 @@ def LS.step (s : LS) : Ev → Option LS
       match q.oldtag with
       | none => none
       | some ot =>
-        match (s.chain ot).head? with
+        match lookupTarget s.chain f ot with
         | none => some { s with req := upd s.req f { q with wpc := .fl1 none } }
         | some t =>
           -- f.flushreq = t.flushreq; t.flushreq = f
@@ -266,7 +283,7 @@ def LS.tame (s : LS) : Ev → Bool
     match (s.req f).oldtag with
     | none => true
     | some ot =>
-      match (s.chain ot).head? with
+      match lookupTarget s.chain f ot with
       | none => true
       | some t => (s.req t).oldtag == none
   | .unlink i =>
